@@ -5,7 +5,7 @@ CFG = {
     "gens": ["C09"],
     "rule": (
         "seven case kinds. (a) c09:read — the LIBRARY writes a file-backed store under raw (random 32-byte key, base58, a quarter with "
-        "leading zero bytes) / none / kdf:argon2i int (2 per quick run) / mod (1 per quick run, more in thorough): 1-3 profiles (unicode, "
+        "leading zero bytes) / none / kdf:argon2i int (3 per quick run) / mod (1 per quick run; 8 times as many in thorough): 1-3 profiles (unicode, "
         "empty, case-differing names), 0-12 records each over a colliding + exotic alphabet (empty, NUL, combining, astral, '~', '%', "
         "85-byte category), both kinds, 0-5 tags of both kinds with duplicates, values empty / 1 byte / unicode / non-UTF-8 / block-boundary "
         "lengths 15..257 / up to 3.6 KB, some with expiry, then replace (new value + tags) and remove of some; after close the raw tables "
